@@ -52,7 +52,9 @@ class FuncInfo:
                     if r and r[0] == 'func' and r[1].node is not self.node:
                         e = expression_of(r[1].node)
                         return (e[0], e[1], e[2], False) if e else None
-                if isinstance(f, ast.Attribute) and f.attr.startswith('_') and not f.attr.startswith('__') and isinstance(f.value, ast.Name):
+                if isinstance(f, ast.Attribute) and not f.attr.startswith('__') and isinstance(f.value, ast.Name) and (
+                        f.attr.startswith('_') or (f.value.id == 'self' and not call.args and not call.keywords)):
+                    # (a public method only as an argument-less view of self: `self.items()`)
                     ci = None
                     if f.value.id == 'self' and self.cls is not None:
                         ci = self.cls
